@@ -280,11 +280,16 @@ w("""
 //@   requires [C25] wf: t != nil && t.TransactionBase != nil && t.TransactionBase.done != nil
 //@   assigns armed(t.timer), closed(t.TransactionBase.done), calls(t.TransactionBase.finally)
 //@   ensures [C25] finished: finished(t.TransactionBase)
+//@   ensures [C18] disarmed: !armed(t.timer)
+//@   ensures [C18] completes_once: calls(t.TransactionBase.finally) == old(calls(t.TransactionBase.finally)) + ite(old(finished(t.TransactionBase)) || t.TransactionBase.finally == nil, 0, 1)
 //@ func (*sleepTransaction).Fail
 //@   nopanic [C25]
 //@   requires [C25] wf: t != nil && t.TransactionBase != nil && t.TransactionBase.done != nil
 //@   assigns armed(t.timer), t.TransactionBase.err, closed(t.TransactionBase.done), calls(t.TransactionBase.finally)
 //@   ensures [C25] finished: finished(t.TransactionBase)
+//@   ensures [C18] disarmed: !armed(t.timer)
+//@   ensures [C18] err_stable: old(finished(t.TransactionBase)) ==> t.TransactionBase.err == old(t.TransactionBase.err)
+//@   ensures [C18] completes_once: calls(t.TransactionBase.finally) == old(calls(t.TransactionBase.finally)) + ite(old(finished(t.TransactionBase)) || t.TransactionBase.finally == nil, 0, 1)
 //@ func (*sleepTransaction).startSleep
 //@   nopanic [C25]
 //@   requires [C25] wf: sleepWF(t)
@@ -298,11 +303,18 @@ w("""
 //@   let c = t.client
 //@   assigns deref(c.state), t.state, t.timer, armed(t.timer), c.wireN, c.wire, c.tryN, c.try, t.TransactionBase.err, closed(t.TransactionBase.done), calls(t.TransactionBase.finally)
 //@   ensures [C25] keeps: sleepWF(t)
+// C18 for the sleep exchange: a timer callback that runs after the exchange has finished (Stop came too late) does nothing
+//@   ensures [C18] nothing_after_done: old(finished(t.TransactionBase)) ==> c.wireN == old(c.wireN) && c.tryN == old(c.tryN) && deref(c.state) == old(deref(c.state)) &&
+//@      t.state == old(t.state) && t.timer == old(t.timer) && armed(t.timer) == old(armed(t.timer)) && t.TransactionBase.err == old(t.TransactionBase.err) &&
+//@      calls(t.TransactionBase.finally) == old(calls(t.TransactionBase.finally))
+//@   ensures [C18] no_timer_left_by_a_finished_exchange: finished(t.TransactionBase) && !old(finished(t.TransactionBase)) ==> !armed(t.timer)
 //@ func (*sleepTransaction).wakeup$1
 //@   async [C25] wf: t != nil && t.TransactionBase != nil && t.TransactionBase.done != nil
 //@   nopanic [C25]
 //@   requires [C25] wf: t != nil && t.TransactionBase != nil && t.TransactionBase.done != nil
 //@   assigns armed(t.timer), t.TransactionBase.err, closed(t.TransactionBase.done), calls(t.TransactionBase.finally)
+//@   ensures [C18] nothing_after_done: old(finished(t.TransactionBase)) ==> t.TransactionBase.err == old(t.TransactionBase.err) &&
+//@      calls(t.TransactionBase.finally) == old(calls(t.TransactionBase.finally))
 //@ func (*sleepTransaction).Sleep
 //@   nopanic [C25]
 //@   tags [C23]
@@ -320,6 +332,10 @@ w("""
 //@   let c = t.client
 //@   assigns t.disconnectResendNum, t.timer, armed(t.timer), c.wireN, c.wire, c.tryN, c.try, t.disconnect.Header.pktLength, t.TransactionBase.err, closed(t.TransactionBase.done), calls(t.TransactionBase.finally)
 //@   ensures [C25] keeps: sleepResendWF(t)
+//@   ensures [C18] nothing_after_done: old(finished(t.TransactionBase)) ==> c.wireN == old(c.wireN) && c.tryN == old(c.tryN) &&
+//@      t.disconnectResendNum == old(t.disconnectResendNum) && t.timer == old(t.timer) && armed(t.timer) == old(armed(t.timer)) &&
+//@      t.TransactionBase.err == old(t.TransactionBase.err) && calls(t.TransactionBase.finally) == old(calls(t.TransactionBase.finally))
+//@   ensures [C18] no_timer_left_by_a_finished_exchange: finished(t.TransactionBase) && !old(finished(t.TransactionBase)) ==> !armed(t.timer)
 //@   ensures [C25,C23] nothing_resent_once_acknowledged: old(t.disconnect) == nil ==> c.wireN == old(c.wireN) && c.tryN == old(c.tryN)
 //@ func (*sleepTransaction).Disconnect
 //@   nopanic [C25]
